@@ -757,6 +757,11 @@ flatcc_builder_ref_t flatcc_builder_embed_buffer(flatcc_builder_t *B,
     if (align_buffer_end(B, &align, block_align, !is_top_buffer(B))) {
         return 0;
     }
+    /*
+     * The enclosing buffer must report at least the alignment of the
+     * embedded buffer, as create_buffer does for buffers built in place.
+     */
+    set_min_align(B, align);
     pad = front_pad(B, (uoffset_t)(size + (with_size ? field_size : 0)), align);
     write_uoffset(&size_field, (uoffset_t)size + pad);
     init_iov();
